@@ -434,7 +434,7 @@ Global Hint Extern 1 (rel2 (reserve_buffer _ _ _) (reserve_buffer _ _ _)) => app
 Global Hint Extern 1 (rel2 (alloc_call _ _) (alloc_call _ _)) => apply alloc_call_rel; discriminate : rel_db.
 
 (* emit_call: the emitter pool is not part of the core; the event carries core data only *)
-Lemma emit_call_rel ref kind bytes : rel2 (emit_call ref kind bytes) (emit_call ref kind bytes).
+Lemma emit_call_rel ref kind bytes tag : rel2 (emit_call ref kind bytes tag) (emit_call ref kind bytes tag).
 Proof.
   intros s1 s2 HR I1 I2. unfold emit_call.
   destruct (fe_neg_branch s1 I1) as [-> ->], (fe_neg_branch s2 I2) as [-> ->]. simpl.
@@ -459,11 +459,15 @@ Lemma front_pad_rel n a : rel2 (front_pad n a) (front_pad n a).
 Proof. unfold front_pad. rel. Qed.
 Lemma back_pad_rel a : rel2 (back_pad a) (back_pad a).
 Proof. unfold back_pad. rel. Qed.
+Lemma emit_front_tag_rel k b t : rel2 (emit_front_tag k b t) (emit_front_tag k b t).
+Proof. unfold emit_front_tag. rel. Qed.
 Lemma emit_front_rel k b : rel2 (emit_front k b) (emit_front k b).
-Proof. unfold emit_front. rel. Qed.
+Proof. apply emit_front_tag_rel. Qed.
+Lemma emit_back_tag_rel k b t : rel2 (emit_back_tag k b t) (emit_back_tag k b t).
+Proof. unfold emit_back_tag. rel. Qed.
 Lemma emit_back_rel k b : rel2 (emit_back k b) (emit_back k b).
-Proof. unfold emit_back. rel. Qed.
-Global Hint Resolve push_ds_rel unpush_ds_rel front_pad_rel back_pad_rel emit_front_rel emit_back_rel : rel_db.
+Proof. apply emit_back_tag_rel. Qed.
+Global Hint Resolve push_ds_rel unpush_ds_rel front_pad_rel back_pad_rel emit_front_rel emit_back_rel emit_front_tag_rel emit_back_tag_rel : rel_db.
 
 (* ------------------------------------------------------------------ enter_frame / exit_frame *)
 Definition blocked (s : bstate) : bool := (0 <? max_level s) && (max_level s <? level s + 1).
@@ -616,18 +620,20 @@ Lemma keeps_note_demand_ht k r : keeps ht_width (note_demand k r).
 Proof. intros s. unfold note_demand. destruct k; reflexivity. Qed.
 Lemma keeps_reserve_buffer_ht k u n : keeps ht_width (reserve_buffer k u n).
 Proof. unfold reserve_buffer. apply keeps_bind; [apply keeps_note_demand_ht | intro; apply keeps_reserve_raw_ht]. Qed.
-Lemma keeps_emit_call_ht r k b : keeps ht_width (emit_call r k b).
+Lemma keeps_emit_call_ht r k b t : keeps ht_width (emit_call r k b t).
 Proof.
   intros s. unfold emit_call, emitter_emit.
   destruct (fe s =? 0); [destruct (fe_rep s); reflexivity|].
   repeat match goal with |- context [if ?b then _ else _] => destruct b end; reflexivity.
 Qed.
 Global Hint Resolve keeps_alloc_call_ht keeps_reserve_buffer_ht keeps_emit_call_ht : keeps_db.
-Lemma keeps_emit_front_ht k b : keeps ht_width (emit_front k b).
-Proof. unfold emit_front. keepsA. Qed.
-Lemma keeps_emit_back_ht k b : keeps ht_width (emit_back k b).
-Proof. unfold emit_back. keepsA. Qed.
-Global Hint Resolve keeps_emit_front_ht keeps_emit_back_ht : keeps_db.
+Lemma keeps_emit_front_ht k b t : keeps ht_width (emit_front_tag k b t).
+Proof. unfold emit_front_tag. keepsA. Qed.
+Lemma keeps_emit_back_ht k b t : keeps ht_width (emit_back_tag k b t).
+Proof. unfold emit_back_tag. keepsA. Qed.
+Lemma keeps_front_pad_ht n a : keeps ht_width (front_pad n a).
+Proof. unfold front_pad. keepsA. Qed.
+Global Hint Resolve keeps_emit_front_ht keeps_emit_back_ht keeps_front_pad_ht : keeps_db.
 Lemma keeps_create_vtable_ht v : keeps ht_width (create_vtable v).
 Proof. unfold create_vtable. keepsA. Qed.
 Global Hint Resolve keeps_create_vtable_ht : keeps_db.
@@ -746,7 +752,7 @@ Global Hint Resolve expect_type_rel : rel_db.
 
 Lemma start_buffer_rel i b f : rel2 (start_buffer i b f) (start_buffer i b f).
 Proof. unfold start_buffer. rel. Qed.
-Lemma end_buffer_rel r : rel2 (end_buffer r) (end_buffer r).
+Lemma end_buffer_rel fx r : rel2 (end_buffer fx r) (end_buffer fx r).
 Proof. unfold end_buffer. rel. Qed.
 Lemma start_struct_rel a d : rel2 (start_struct a d) (start_struct a d).
 Proof. unfold start_struct. rel. Qed.
@@ -1122,7 +1128,7 @@ Proof.
     apply pres_bind; [apply pres_upd; intros s H; exact H | intro; apply pres_ret].
 Qed.
 
-Lemma pres_emit_call r k b : pres P (emit_call r k b).
+Lemma pres_emit_call r k b t : pres P (emit_call r k b t).
 Proof.
   intros s H. unfold emit_call. destruct (fe s =? 0); [destruct (fe_rep s); exact H|].
   unfold emitter_emit. repeat match goal with |- context [if ?b then _ else _] => destruct b end; exact H.
@@ -1139,7 +1145,7 @@ Global Hint Resolve pres_reserve_buffer pres_refresh_ds pres_ensure_ds pres_fram
 Section FootprintOps3.
 Variable c0 : capt.
 Notation P := (FP c0).
-Ltac u f := unfold f; presA.
+Ltac u f := solve [unfold f; presA].
 Lemma pres_raise_min_align a : pres P (raise_min_align a). Proof. u raise_min_align. Qed.
 Lemma pres_expect_type t : pres P (expect_type t). Proof. u expect_type. Qed.
 Lemma pres_push_ds n d : pres P (push_ds n d). Proof. u push_ds. Qed.
@@ -1149,9 +1155,11 @@ Hint Resolve pres_raise_min_align pres_expect_type pres_push_ds pres_unpush_ds p
 Lemma pres_exit_frame : pres P exit_frame. Proof. u exit_frame. Qed.
 Lemma pres_front_pad n a : pres P (front_pad n a). Proof. u front_pad. Qed.
 Lemma pres_back_pad a : pres P (back_pad a). Proof. u back_pad. Qed.
-Lemma pres_emit_front k b : pres P (emit_front k b). Proof. u emit_front. Qed.
-Lemma pres_emit_back k b : pres P (emit_back k b). Proof. u emit_back. Qed.
-Hint Resolve pres_exit_frame pres_front_pad pres_back_pad pres_emit_front pres_emit_back : pres_db.
+Lemma pres_emit_front_tag k b t : pres P (emit_front_tag k b t). Proof. u emit_front_tag. Qed.
+Lemma pres_emit_back_tag k b t : pres P (emit_back_tag k b t). Proof. u emit_back_tag. Qed.
+Lemma pres_emit_front k b : pres P (emit_front k b). Proof. apply pres_emit_front_tag. Qed.
+Lemma pres_emit_back k b : pres P (emit_back k b). Proof. apply pres_emit_back_tag. Qed.
+Hint Resolve pres_exit_frame pres_front_pad pres_back_pad pres_emit_front pres_emit_back pres_emit_front_tag pres_emit_back_tag : pres_db.
 Lemma pres_align_buffer_end a b n : pres P (align_buffer_end a b n). Proof. u align_buffer_end. Qed.
 Hint Resolve pres_align_buffer_end : pres_db.
 Lemma pres_create_buffer i b r a f : pres P (create_buffer i b r a f). Proof. u create_buffer. Qed.
@@ -1362,10 +1370,10 @@ Qed.
 
 (* ------------------------------------------------------------------ each distinct vtable once per buffer *)
 Definition is_vt (e : event) : bool := ev_kind e =? EK_vtable.
-Definition vkey (e : event) : Z * list Z := (ev_nest e, ev_bytes e).
+Definition vkey (e : event) : Z * list Z := (ev_nest e, ev_tag e).
 (* every vtable emitted so far is still in the cache, under the buffer it was emitted for *)
 Definition cache_complete (es : list event) (s : bstate) : Prop :=
-  forall e, In e es -> is_vt e = true -> find_exact (ev_bytes e) (ev_nest e) (vcache s) <> None.
+  forall e, In e es -> is_vt e = true -> find_exact (ev_tag e) (ev_nest e) (vcache s) <> None.
 Definition VT (es : list event) (s : bstate) : Prop :=
   NoDup (map vkey (filter is_vt es)) /\ cache_complete es s /\ vb_flush_limit s = 0 /\ fa s < 0 /\ fe s < 0.
 Definition vtok {A} (m : M A) : Prop :=
@@ -1426,7 +1434,7 @@ Proof. intros s. unfold set_top_nf. destruct (frames s); simpl; (split; [unfold 
 Lemma quiet_pop_frame : quiet pop_frame.
 Proof. intros s. unfold pop_frame. destruct (frames s); simpl; auto. split; [unfold Q; cbn; auto | constructor]. Qed.
 Global Hint Resolve quiet_reserve_buffer quiet_set_top quiet_set_top_nf quiet_pop_frame : quiet_db.
-Lemma quiet_emit_data r b : quiet (emit_call r EK_data b).
+Lemma quiet_emit_data r b t : quiet (emit_call r EK_data b t).
 Proof.
   intros s. unfold emit_call. destruct (fe s =? 0) eqn:E.
   - split; [|constructor]. destruct (fe_rep s); unfold Q; cbn; osplit; auto; intros; lia.
@@ -1435,7 +1443,7 @@ Proof.
       repeat match goal with |- context [if ?b then _ else _] => destruct b end; unfold Q; cbn; osplit; auto; intros; lia.
 Qed.
 Global Hint Resolve quiet_emit_data : quiet_db.
-Ltac q f := unfold f; quietA.
+Ltac q f := solve [unfold f; quietA].
 Lemma quiet_refresh_ds l : quiet (refresh_ds l). Proof. q refresh_ds. Qed.
 Global Hint Resolve quiet_refresh_ds : quiet_db.
 Lemma quiet_reserve_ds n l : quiet (reserve_ds n l). Proof. q reserve_ds. Qed.
@@ -1452,8 +1460,8 @@ Lemma quiet_enter_frame a : quiet (enter_frame a). Proof. q enter_frame. Qed.
 Lemma quiet_exit_frame : quiet exit_frame. Proof. q exit_frame. Qed.
 Lemma quiet_front_pad n a : quiet (front_pad n a). Proof. q front_pad. Qed.
 Lemma quiet_back_pad a : quiet (back_pad a). Proof. q back_pad. Qed.
-Lemma quiet_emit_front b : quiet (emit_front EK_data b). Proof. q emit_front. Qed.
-Lemma quiet_emit_back b : quiet (emit_back EK_data b). Proof. q emit_back. Qed.
+Lemma quiet_emit_front b : quiet (emit_front EK_data b). Proof. unfold emit_front, emit_front_tag. quietA. Qed.
+Lemma quiet_emit_back b : quiet (emit_back EK_data b). Proof. unfold emit_back, emit_back_tag. quietA. Qed.
 Global Hint Resolve quiet_enter_frame quiet_exit_frame quiet_front_pad quiet_back_pad quiet_emit_front quiet_emit_back : quiet_db.
 Lemma quiet_align_buffer_end a b n : quiet (align_buffer_end a b n). Proof. q align_buffer_end. Qed.
 Global Hint Resolve quiet_align_buffer_end : quiet_db.
@@ -1510,10 +1518,10 @@ Proof.
 Qed.
 
 (* the state after a vtable has been emitted and entered into the cache *)
-Lemma VT_insert es s t ref dref vt vbs :
+Lemma VT_insert es s t ref dref vt bytes vbs :
   VT es s -> find_exact vt (nest_id s) (vcache s) = None ->
   vcache t = mkvd vt (nest_id s) dref vbs :: vcache s -> vb_flush_limit t = 0 -> fa t < 0 -> fe t < 0 ->
-  VT (es ++ [mkev ref EK_vtable (nest_id s) vt]) t.
+  VT (es ++ [mkev ref EK_vtable (nest_id s) bytes vt]) t.
 Proof.
   intros (ND & CC & FL & FA & FE) Hmiss Hvc Hfl Hfa Hfe. unfold VT. osplit; auto.
   - rewrite filter_app, map_app. cbn. apply NoDup_app_single.
@@ -1522,7 +1530,7 @@ Proof.
       unfold vkey in Hk. cbn in Hk. injection Hk as Hn Hb. specialize (CC e Hin Hv). rewrite Hn, Hb in CC. contradiction.
   - intros e Hin Hv. rewrite Hvc. unfold find_exact. cbn [find vd_vt vd_nest].
     apply in_app_or in Hin as [Hin|[<-|[]]].
-    + destruct (list_eqb vt (ev_bytes e) && (nest_id s =? ev_nest e)); [discriminate | apply CC; auto].
+    + destruct (list_eqb vt (ev_tag e) && (nest_id s =? ev_nest e)); [discriminate | apply CC; auto].
     + cbn. rewrite list_eqb_refl, Z.eqb_refl. discriminate.
 Qed.
 
@@ -1537,13 +1545,13 @@ Qed.
 
 Lemma create_vtable_char vt s :
   match create_vtable vt s with
-  | Ret _ t e => (Q s t /\ nest_id t = nest_id s) /\ (e = [] \/ exists r, e = [mkev r EK_vtable (nest_id s) vt])
+  | Ret _ t e => (Q s t /\ nest_id t = nest_id s) /\ (e = [] \/ exists r b, e = [mkev r EK_vtable (nest_id s) b vt])
   | Fault => True
   end.
 Proof.
-  unfold create_vtable, emit_back, emit_front, emit_call, emitter_emit, bind, get, upd, ret. cbn.
+  unfold create_vtable, front_pad, emit_back_tag, emit_front_tag, emit_call, emitter_emit, bind, get, upd, ret. cbn.
   repeat match goal with |- context [if ?b then _ else _] => destruct b eqn:? end; cbn;
-    (split; [unfold Q; cbn in *; osplit; auto; intros; lia | first [left; reflexivity | right; eexists; reflexivity]]).
+    (split; [unfold Q; cbn in *; osplit; auto; intros; lia | first [left; reflexivity | right; eexists; eexists; reflexivity]]).
 Qed.
 
 Lemma VT_Q es s t : VT es s -> Q s t -> VT es t.
@@ -1556,7 +1564,7 @@ Lemma VT_add_unrelated es s t d : VT es s -> vcache t = d :: vcache s -> vb_flus
 Proof.
   intros (ND & CC & FL & FA & FE) Hvc Hfl Hfa Hfe. unfold VT. osplit; auto.
   intros e Hin Hv. rewrite Hvc. unfold find_exact. cbn [find].
-  destruct (list_eqb (vd_vt d) (ev_bytes e) && (vd_nest d =? ev_nest e)); [discriminate | apply CC; auto].
+  destruct (list_eqb (vd_vt d) (ev_tag e) && (vd_nest d =? ev_nest e)); [discriminate | apply CC; auto].
 Qed.
 
 Lemma ccv_rest_VT vt es s : VT es s ->
@@ -1578,7 +1586,7 @@ Proof.
   assert (Q3' : Q s t3) by (eapply Q_trans; eauto).
   destruct (ref =? 0) eqn:Er; [cbn; intros; congruence|].
   assert (Hnid : nest_id t2 = nest_id s) by (unfold t2; cbn; exact N1).
-  destruct He3 as [->|[r ->]].
+  destruct He3 as [->|(r & bb & ->)].
   { (* a reference came back although nothing was emitted: the descriptor is entered all the same *)
     destruct Q3' as (Hvc3 & Hfl3 & Hfa3 & Hfe3).
     destruct (find_copy vt (vcache s)) as [d2|].
